@@ -71,6 +71,11 @@ class ScaleSpec(SeqSpec):
             for i in range(12 if big else 5):
                 add({"kind": "deque-gc", "style": "random", "steps": rng.choice([40, 200, 1500]), "drain": rng.random() < 0.5, "seed": rng.randrange(1 << 30)})
                 add({"kind": "deque-gc", "style": "offset-shrink", "steps": rng.choice([30, 300]), "drain": True, "seed": rng.randrange(1 << 30)})
+        if "c18-extras" in self.kinds:
+            add({"kind": "watchable-nil"})
+            add({"kind": "lazy-panic"})
+            add({"kind": "xmap-swap-storm", "rounds": 4000 if big else 300, "k": 8})
+            add({"kind": "xmap-swap-storm", "rounds": 4000 if big else 300, "k": 3})
         if "mapstream-close-busy" in self.kinds:
             for who in ("f", "src"):
                 for p in (1, 3):
